@@ -586,7 +586,14 @@ def long_loop(sc, base, seed, pid="C10"):
     last = rec[T - dt]
     if not b["crashed"] and not np.isfinite(last).all():
         out.append(viol(pid, T - dt, "the last step of a long run was not recorded"))
+    aff_positive = True
     if tw["events"] and not b["crashed"]:
+        # (an event that only hits industries without any output cannot move a capacity that is zero)
+        cols = [tuple(c_) for c_ in b["columns"]]
+        idx = [cols.index(tuple(k_.split("|"))) for k_ in tw["events"][0]["impact"] if tuple(k_.split("|")) in cols]
+        row0 = b["production_capacity"][0]
+        aff_positive = any(row0[j_] > 0 for j_ in idx) if idx else True
+    if tw["events"] and not b["crashed"] and aff_positive:
         cap = b["production_capacity"]
         before, at = cap[late - dt if late % dt == 0 else (late // dt) * dt], cap[((late + dt - 1) // dt) * dt]
         if np.allclose(before, at, rtol=1e-12, atol=0) and tw["events"][0]["type"] != "rebuild":
